@@ -58,7 +58,7 @@ def main(tier, seed, replay=None):
             k += 1
             N = M + P + rng.randint(2, 10)
             cases.append(statsrun.gen_stats_case(rng, M, P, N, scalar=("f32" if k % 6 == 0 else "f64"),
-                                                 weights=["none", "pos", "zeros", "neg"][k % 4], noise=[0.02, 0.1, 0.5][rep % 3],
+                                                 weights=["none", "pos", "zeros", "neg", "const"][k % 5], noise=[0.02, 0.1, 0.5][rep % 3],
                                                  quant=(8 if k % 4 else None), probs=[0.683],
                                                  ctor=("new_parallel" if k % 5 == 0 else "new"), builder_made=(k % 4 == 2 and P <= M)))
     # a parameter shared by two basis functions (its derivative matrix has two non-zero columns)
